@@ -47,11 +47,11 @@ def _positions(case, x):
     return pos
 
 
-def _expected_failure(doc, groups, pos):
+def _expected_failure(doc, groups, pos, rot=0):
     """first failing file line of a doctest made of the given groups, or None"""
     for g in groups:
         if g == 2:
-            return pos[g]['src'][-1], 'ZeroDivisionError'
+            return pos[g]['src'][collectlib.src_fail_index(doc['nsrc'], rot)], 'ZeroDivisionError'
         if doc['nwant'] == 2:
             return pos[g]['want'][0], 'GotWantException'
     return None, None
@@ -111,7 +111,7 @@ def _one(raw):
                     # run and locate the failure
                     pos = _positions(case, x)
                     groups = sorted(pos) if (style == 'freeform' or doc['kind'] == 'free') else [e.num + 1]
-                    exp_line, exp_type = _expected_failure(doc, groups, pos)
+                    exp_line, exp_type = _expected_failure(doc, groups, pos, rot)
                     e.mode = 'native'
                     e.config['colored'] = False
                     old = sys.stdout
